@@ -68,7 +68,8 @@ enum Act {
     /// gas_tok: which token pays the gas: 2 = the gas token, 1 = T2, 0 = T1 (aliasing with the transferred token)
     /// hub: the destination named is the hub's own chain (trusted at set-up, never removed)
     Out { token: u8, sender: usize, amt: Amt, trusted_dest: bool, data: bool, gas: u8, auth: bool, gas_tok: u8, hub: bool },
-    /// recipient: 0 = U2, 1 = app with data, 2 = the token service itself, 3 = an account-type address
+    /// recipient: 0 = U2, 1 = app with data, 2 = the token service itself, 3 = an account-type address,
+    /// 4 = bytes that are well-formed XDR of a string, not of an address (nobody to credit: refused)
     In { token: u8, recipient: u8, amt: Amt },
     /// the last successful inbound delivery is approved and delivered again, unchanged
     ReplayLastInbound,
@@ -78,6 +79,8 @@ enum Act {
 struct Ctx {
     iw: ItsWorld,
     t1_id: [u8; 32],
+    /// the id under which T1's address can also be registered as a canonical token
+    t1c_id: [u8; 32],
     t1: Address,
     t2_id: [u8; 32],
     t3_id: [u8; 32],
@@ -112,6 +115,7 @@ impl Scenario for C05 {
         let iw = ItsWorld::new("stellar", 2, 2);
         let t1_id = interchain_token_id("stellar", &iw.sc(&iw.users[0]), &SALT);
         let t1 = iw.seat_token(&t1_id);
+        let t1c_id = canonical_token_id("stellar", &iw.sc(&t1));
         let t2_id = canonical_token_id("stellar", &iw.sc(&iw.assets[0]));
         // a native seat behind the canonical id as well: only a broken tree deploys a token there
         iw.seat_token(&t2_id);
@@ -146,7 +150,7 @@ impl Scenario for C05 {
             &soroban_sdk::xdr::ScAddress::Account(soroban_sdk::xdr::AccountId(soroban_sdk::xdr::PublicKey::PublicKeyTypeEd25519(soroban_sdk::xdr::Uint256([7; 32])))),
         );
         let holders = vec![iw.users[0].clone(), iw.users[1].clone(), iw.app.clone(), iw.its.clone(), iw.gas.clone(), account];
-        let ctx = Ctx { iw, t1_id, t1, t2_id, t3_id, t3, t4_id, holders };
+        let ctx = Ctx { iw, t1_id, t1c_id, t1, t2_id, t3_id, t3, t4_id, holders };
         let mut m = Model {
             advances: 0,
             t1: false,
@@ -176,6 +180,11 @@ impl Scenario for C05 {
         if !m.t2 { v.push(Act::Register); }
         if m.t1 && !m.t1_also_canonical { v.push(Act::RegisterDeployedAsCanonical); }
         if m.t2 { v.push(Act::HubDeployForCanonicalId); }
+        if m.t1_also_canonical {
+            for amt in [Amt::One, Amt::All] {
+                v.push(Act::Out { token: 5, sender: 0, amt, trusted_dest: true, data: false, gas: 0, auth: true, gas_tok: 2, hub: false });
+            }
+        }
         let amts = [Amt::One, Amt::All, Amt::AllPlus1, Amt::Zero, Amt::Neg];
         for token in 0..3u8 {
             for sender in 0..2usize {
@@ -213,13 +222,14 @@ impl Scenario for C05 {
         }
         if m.inbound < if self.thorough { 4 } else { 3 } {
             for token in [0u8, 1, 3, 4] {
-                for recipient in 0..4u8 {
+                for recipient in 0..5u8 {
                     for amt in [Amt::One, Amt::All, Amt::AllPlus1, Amt::Huge] {
                         if (token == 0 || token == 3) && amt != Amt::One && amt != Amt::Huge { continue; }
                         if token >= 3 && (recipient == 1 || amt == Amt::Huge) { continue; }
                         if recipient == 2 && (amt != Amt::One || token >= 3) { continue; }
                         // asset-contract tokens need a trustline for account recipients: service-deployed tokens only
                         if recipient == 3 && (amt != Amt::One || token != 0) { continue; }
+                        if recipient == 4 && (amt != Amt::One || token >= 3) { continue; }
                         v.push(Act::In { token, recipient, amt });
                     }
                 }
@@ -313,9 +323,11 @@ impl Scenario for C05 {
                     1 => (ctx.t2_id, m.t2, 1),
                     3 => (ctx.t3_id, true, 3),
                     4 => (ctx.t4_id, true, 4),
+                    // T1 through the id its address was registered under as a canonical token: locked, not burned
+                    5 => (ctx.t1c_id, m.t1 && m.t1_also_canonical, 0),
                     _ => (UNKNOWN, false, 0),
                 };
-                let native = tix == 0 || tix == 3;
+                let native = (tix == 0 || tix == 3) && *token != 5;
                 let bal = if *token != 2 { m.bal[tix][*sender] } else { 0 };
                 let x = match amt { Amt::Neg => -1, Amt::Zero => 0, Amt::One => 1, Amt::All => bal, Amt::AllPlus1 => bal + 1, Amt::Huge => 1 };
                 let gt = *gas_tok as usize;
@@ -352,7 +364,7 @@ impl Scenario for C05 {
                     return;
                 }
                 if !want { return; }
-                if native { m.bal[tix][*sender] -= x; m.burned[tix] += x; } else { m.bal[tix][*sender] -= x; m.bal[tix][3] += x; m.locked[tix] += x; }
+                if native { m.bal[tix][*sender] -= x; m.burned[tix] += x; } else { m.bal[tix][*sender] -= x; m.bal[tix][3] += x; if *token != 5 { m.locked[tix] += x; } }
                 m.bal[gt][*sender] -= g;
                 m.bal[gt][4] += g;
                 // the announcement
@@ -400,9 +412,10 @@ impl Scenario for C05 {
                 let custody = if native { 0 } else { m.bal[tix][3] };
                 let x: i128 = match amt { Amt::One => 1, Amt::All => custody, Amt::AllPlus1 => custody + 1, _ => 1 };
                 let (rcpt, rix, data): (&Address, usize, Vec<u8>) = match recipient { 0 => (&iw.users[1], 1, vec![]), 1 => (&iw.app, 2, b"app-data".to_vec()), 2 => (&iw.its, 3, vec![]), _ => (&ctx.holders[5], 5, vec![]) };
+                let dest_bytes = if *recipient == 4 { xdr(&sstr("GAAAAAAAAAAAAAAAAAAAAAAAAAAAAAAAAAAAAAAAAAAAAAAAAAAAAWHF")) } else { addr_xdr(&iw.sc(rcpt)) };
                 let mut payload = abi_hub(&RHub::ReceiveFromHub {
                     chain: X.as_bytes().to_vec(),
-                    msg: RMsg::Transfer { token_id: tid, source_address: b"remote-sender".to_vec(), destination_address: addr_xdr(&iw.sc(rcpt)), amount: x as u128, data: data.clone() },
+                    msg: RMsg::Transfer { token_id: tid, source_address: b"remote-sender".to_vec(), destination_address: dest_bytes, amount: x as u128, data: data.clone() },
                 });
                 if *amt == Amt::Huge {
                     let mut wd = [0u8; 32];
@@ -417,7 +430,7 @@ impl Scenario for C05 {
                 let h1 = w.state_hash();
                 let call = iw.execute(&iw.its, HUB_CHAIN, &mid, HUB_ADDRESS, &payload);
                 out.accepted = call.ok;
-                let want = *amt != Amt::Huge && registered && m.trusted && x >= 0 && (native || custody >= x);
+                let want = *amt != Amt::Huge && registered && m.trusted && x >= 0 && (native || custody >= x) && *recipient != 4;
                 // a zero-amount release (custody 0) is a legal no-op transfer for the asset contract
                 // a zero-amount inbound transfer moves nothing; whether it is accepted is not stated
                 let zero = x == 0 && *amt != Amt::Huge;
@@ -533,7 +546,7 @@ fn main() {
         let mut o = Opts::new(tier, if thorough { 9 } else { 4 });
         o.min_depth = 3;
         o.wall_cap_s = if thorough { 600.0 } else { 100.0 };
-        o.rule = "two base states (nothing deployed; T1 deployed + T2 registered); all sequences over deploy, register canonical, set/remove trusted chain, outbound interchain_transfer (token T1 / T2 / a second token of each kind T3, T4 / unknown id; sender U1 / U2; amount -1, 0, 1, balance, balance+1; trusted / untrusted destination (the trusted chain's name is exactly 32 bytes long) / the hub's own chain named as destination; with / without data; gas 1 / unaffordable / 0 / negative, paid in the gas token or in the transferred token itself or the other ITS token; authorised by the sender or by the other user) and approved inbound transfers (replays of the last executed one included; token T1 / T2; to a user or with data to an app; amount 1, custody, custody+1; bounded count). After every new state every balance of T1, T2 and the gas token for U1, U2, app, ITS, gas service, custody == locked - released >= 0 and supply(T1) == 20 + minted - burned are compared, and a burn_from on an allowance that lapsed two ledgers earlier is tried on a snapshot (refused); every successful outbound call's three events and payload are compared with the independent ABI encoding and keccak".into();
+        o.rule = "two base states (nothing deployed; T1 deployed + T2 registered); all sequences over deploy, register canonical, set/remove trusted chain, outbound interchain_transfer (token T1 / T2 / a second token of each kind T3, T4 / T1 through the canonical id its address was also registered under (locked, not burned) / unknown id; sender U1 / U2; amount -1, 0, 1, balance, balance+1; trusted / untrusted destination (the trusted chain's name is exactly 32 bytes long) / the hub's own chain named as destination; with / without data; gas 1 / unaffordable / 0 / negative, paid in the gas token or in the transferred token itself or the other ITS token; authorised by the sender or by the other user) and approved inbound transfers (replays of the last executed one included; token T1 / T2; to a user, with data to an app, to the service itself, to an account-type address, or to recipient bytes that are the XDR of a string (refused); amount 1, custody, custody+1; bounded count). After every new state every balance of T1, T2 and the gas token for U1, U2, app, ITS, gas service, custody == locked - released >= 0 and supply(T1) == 20 + minted - burned are compared, and a burn_from on an allowance that lapsed two ledgers earlier is tried on a snapshot (refused); every successful outbound call's three events and payload are compared with the independent ABI encoding and keccak".into();
         (C05 { thorough }, o)
     });
 }
